@@ -332,6 +332,11 @@ theorem zip_range_snd (olds : List Nat) (next : Nat) :
     (olds.zip (List.range' next olds.length)).map (·.2) = List.range' next olds.length :=
   List.map_snd_zip (by simp)
 
+/-- The (old, new) replacements `insert_context` performs. -/
+def ctxPairs (st : St) (g : DiGraph) : List (Nat × Nat) :=
+  (g.nodes.filter (fun t => (st.tb.get t).takesCtx)).zip
+    (List.range' st.next (g.nodes.filter (fun t => (st.tb.get t).takesCtx)).length)
+
 /-- `insert_context`: the tasks that do not take the context keep their
     relative order, the context-taking ones follow in their relative order with
     the context in front of their static inputs. -/
@@ -339,20 +344,22 @@ theorem insertContext_spec (st : St) (g : DiGraph) (hwf : DiGraph.WF g) (hfresh 
     DiGraph.WF (insertContext st g).2 ∧
     (insertContext st g).2.nodes.map (insertContext st g).1.tb.get =
       (g.nodes.map st.tb.get).filter (fun t => !t.takesCtx) ++
-      ((g.nodes.map st.tb.get).filter (fun t => t.takesCtx)).map addCtx := by
-  unfold insertContext
+      ((g.nodes.map st.tb.get).filter (fun t => t.takesCtx)).map addCtx ∧
+    ∀ e, e ∈ (insertContext st g).2.edges ↔ ∃ e0 ∈ g.edges,
+      e = (renSeq (ctxPairs st g) e0.1, renSeq (ctxPairs st g) e0.2) := by
+  unfold insertContext ctxPairs
   simp only
   generalize holds : g.nodes.filter (fun t => (st.tb.get t).takesCtx) = olds
   have hsub : ∀ o ∈ olds, o ∈ g.nodes ∧ (st.tb.get o).takesCtx = true := by
     intro o ho; rw [← holds] at ho; simpa using ho
   have holdsnd : olds.Nodup := by rw [← holds]; exact hwf.nodupNodes.sublist List.filter_sublist
   have hnewsfresh := range'_fresh (n := olds.length) hfresh
-  obtain ⟨hwf', hnodes, _⟩ := relabelSeq_spec (olds.zip (List.range' st.next olds.length)) g hwf
+  obtain ⟨hwf', hnodes, hedges⟩ := relabelSeq_spec (olds.zip (List.range' st.next olds.length)) g hwf
     (by rw [zip_range_fst]; exact holdsnd)
     (by rw [zip_range_fst]; exact fun o ho => (hsub o ho).1)
     (by rw [zip_range_snd]; exact List.nodup_range')
     (by rw [zip_range_snd]; exact hnewsfresh)
-  refine ⟨hwf', ?_⟩
+  refine ⟨hwf', ?_, hedges⟩
   rw [hnodes, zip_range_fst, zip_range_snd, List.map_append]
   congr 1
   · -- untouched tasks: old ids, looked up in the old part of the table
@@ -396,5 +403,94 @@ theorem relabelPass_spec (st : St) (g : DiGraph) (hwf : DiGraph.WF g) (hfresh : 
   refine ⟨hwf', hnodes, trivial, ?_⟩
   rw [hnodes]
   exact Table.map_get_zip _ _ _ List.nodup_range' (by simp)
+
+open DiGraph
+
+theorem keyOf_inj (sink a b : Nat) (h : keyOf sink a = keyOf sink b) : a = b := by
+  unfold keyOf at h
+  by_cases ha : a = sink <;> by_cases hb : b = sink <;> simp [ha, hb] at h
+  · rw [ha, hb]
+  · exact h
+
+
+theorem atom_safe (res : Option String) (a : Atom) (h : a.hazard = false) :
+    a.keys = [] ∧ a.dask res = a.literal := by
+  cases a with
+  | s x =>
+    simp only [Atom.hazard] at h
+    have hk : strKey x = none := by
+      cases hx : strKey x with
+      | none => rfl
+      | some k => simp [hx] at h
+    simp [Atom.keys, Atom.dask, Atom.literal, strVal, hk]
+  | ctx => simp [Atom.keys, Atom.dask, Atom.literal]
+  | call g args => simp [Atom.hazard] at h
+
+theorem sarg_safe (res : Option String) (a : SArg) (h : a.hazard = false) :
+    a.keys = [] ∧ a.dask res = a.literal := by
+  cases a with
+  | atom a => exact atom_safe res a h
+  | list xs =>
+    simp only [SArg.hazard, List.any_eq_false] at h
+    have hx : ∀ a ∈ xs, a.keys = [] ∧ a.dask res = a.literal :=
+      fun a ha => atom_safe res a (by simpa using h a ha)
+    constructor
+    · simp only [SArg.keys, List.flatMap_eq_nil_iff]
+      exact fun a ha => (hx a ha).1
+    · simp only [SArg.dask, SArg.literal]
+      rw [List.map_congr_left (fun a ha => (hx a ha).2)]
+
+
+theorem executedWorkflow_eq (st : St) (g : DiGraph) :
+    executedWorkflow st g =
+      ((insertContext (relabelPass st g).1 (relabelPass st g).2).1,
+       (insertContext (relabelPass st g).1 (relabelPass st g).2).2.copy) := rfl
+
+
+theorem map_withCtx_ctxLast (l : List Task) :
+    (ctxLast l).map withCtx =
+      l.filter (fun t => !t.takesCtx) ++ (l.filter (fun t => t.takesCtx)).map addCtx := by
+  unfold ctxLast
+  rw [List.map_append]
+  congr 1
+  · conv => rhs; rw [← List.map_id (l.filter (fun t => !t.takesCtx))]
+    apply List.map_congr_left
+    intro t ht
+    have := (List.mem_filter.mp ht).2
+    simp at this
+    simp [withCtx, this]
+  · apply List.map_congr_left
+    intro t ht
+    have := (List.mem_filter.mp ht).2
+    simp [withCtx, this]
+
+
+theorem addTask_fold (g : DiGraph) (t : Nat) (ps : List Nat) :
+    addTask g t (some ps) = (g.addNode t).addEdgesFrom (ps.map (fun p => (p, t))) := by
+  unfold addTask addEdgesFrom
+  simp only
+  generalize g.addNode t = g'
+  induction ps generalizing g' with
+  | nil => rfl
+  | cons p ps ih => simp only [List.foldl_cons, List.map_cons]; exact ih _
+
+
+/-! ### Reachability -/
+
+/-- `Reach g x y`: there is a directed path (possibly empty) from `x` to `y`. -/
+inductive Reach (g : DiGraph) : Nat → Nat → Prop
+  | refl (x : Nat) : Reach g x x
+  | step {u v w : Nat} : (u, v) ∈ g.edges → Reach g v w → Reach g u w
+
+theorem exists_bound (l : List Nat) (f : Nat → Nat) : ∃ N, ∀ x ∈ l, f x ≤ N := by
+  induction l with
+  | nil => exact ⟨0, by simp⟩
+  | cons a l ih =>
+    obtain ⟨N, hN⟩ := ih
+    refine ⟨max (f a) N, ?_⟩
+    intro x hx
+    rcases List.mem_cons.mp hx with rfl | hx
+    · exact Nat.le_max_left _ _
+    · exact Nat.le_trans (hN x hx) (Nat.le_max_right _ _)
 
 end Pharmpy.C17
